@@ -17,6 +17,21 @@ CHECKS = {
         text="Coq model of runCheck (selection, flag-else-config-else-10 threshold, severity gate, cycle limit, issueCount arithmetic, exit code) with gate_exact : exit = 0 <-> gate_spec proved for all inputs; clones_never_fail; printed lines = violations; monotonicity. Correspondence: generated boundary projects x flag/config/cwd combinations on the real `pyscn check`, against the spec, against `pyscn analyze --json`, and against the model.",
         note="assumes complexities >= 1 and --max-cycles >= 0; the literal 'any analysis could not run' clause is refuted for the informational clone analysis (F27, open known finding); F16 and F28 repaired by fix: commits; mock-data findings and clone pairs are read from check's own output.",
         design="5 C19"),
+    "C02": dict(
+        technique="Coq proof: every structurally unreachable statement (spec must_dead_block) is marked dead by the reachability abstraction Cfg/Flow.v, for every def at any depth; tie: pyscn findings at default severity must cover every must-be-dead statement under the def's qualified name",
+        text="Theorem C02_complete (no axioms): forall body k, In k (must_dead_block body) -> In k (dead_ids body), unbounded in nesting and size. Each run evaluates the spec in Coq on generated modules (terminators at every position of every construct, nested defs, methods, loop else, multi-elif) and requires a pyscn finding (critical or warning, default filter) of the right function covering each such statement.",
+        note="Hand-written model tied by sampled correspondence. Known finding F3 (two definitions with one qualified name overwrite each other) is matched only for modules that contain duplicate qualified names.",
+        design="5 C02"),
+    "C03": dict(
+        technique="Coq proof: complexity of the model = 1 + weights of the decision points not in dead code (spec mccabe) for the property's construct list; relabelling invariance; risk table; tie: pyscn complexity and risk level vs the Coq spec on generated functions x threshold pairs",
+        text="Theorems C03_mccabe, C03_invariant (any relabelling of lines and names), C03_risk (no axioms). Each run: functions built from if/elif/else, for/while(+else), break/continue/return, try/except/else, comprehensions, nested defs/classes (nesting <= 5): pyscn's complexity must equal mccabe evaluated in Coq with pyscn's own dead set; RiskLevel must equal the threshold table for 4-6 configured threshold pairs.",
+        note="with/match/raise/finally are outside the property's construct list: functions using them are compared with the model only (reported as extra_* in the evidence).",
+        design="5 C03"),
+    "C04": dict(
+        technique="Coq model of the BuildAll registry and lcom.collectClasses with theorems registry = all_defs under unique qualified names, class lines always right; refuted witnesses for same-name overwrite (F3) and nested class names (F20); tie: complexity.Functions / lcom.Classes rows vs layout, layout vs python3 ast.walk",
+        text="C04_functions_partial (NoDup names -> registry = every def exactly once with dotted name and line), C04_classes_lines, C04_classes_names_partial; C04_functions_refuted_same_name and C04_classes_names_refuted_nested are the two recorded findings. Each run compares every generated def/class (any nesting) with pyscn's rows: name, StartLine, EndLine, exactly once; one __main__ row.",
+        note="The full statement is false on the current tree for two input classes (known findings F3b, F20), each matched narrowly. End lines and decorators are checked by the harness (python3 ast as independent reference), not modelled.",
+        design="5 C04"),
     "C15": dict(
         technique="Coq proof over an exact-rational model of domain/analyze.go + calculateSummary; constants regenerated from Go source; differential correspondence (vm_compute) against the tagged Go driver",
         text="Theorems (Props/C15.v, no axioms): score and category ranges, score = max 0 (100 - sum of penalties) with caps 20/20/20/20/20/16/12, grade table, monotonicity in every measured quantity (simultaneously), skipping analyses never lowers the score. The model is tied to the code by regenerated constants and by running CalculateHealthScore / calculateSummary and the model on boundary-lattice and random summaries every run.",
